@@ -2,6 +2,7 @@ package database
 
 // Registry lists the harness entry points of this package for native replay (c17internals.go adds its own).
 var Registry = map[string]func([]int64){
-	"HarnessFileRoundTrip": func(a []int64) { HarnessFileRoundTrip(int(a[0])) },
-	"HarnessInitRestart":   func(a []int64) { HarnessInitRestart(int(a[0])) },
+	"HarnessFileRoundTrip":         func(a []int64) { HarnessFileRoundTrip(int(a[0])) },
+	"HarnessInitRestart":           func(a []int64) { HarnessInitRestart(int(a[0])) },
+	"HarnessExportOverEarlierFile": func(a []int64) { HarnessExportOverEarlierFile(int(a[0]), int(a[1])) },
 }
